@@ -540,8 +540,8 @@ func (p *Process) onProcessStart() {
 
 	p.Lock()
 	p.started = true
-	p.Unlock()
 	verifTrace(p, "Started")
+	p.Unlock()
 	close(p.procStartedChan)
 }
 
